@@ -32,6 +32,11 @@ CLAIMED = {
             "Trusted: the interpreter with frames; call output variables are read only right after the call; runs in which a condition would read an unconstrained value are counted inconclusive, not passed.",
             "deterministic simulation: seeded call/return histories (early return, recursion, re-call) and injected command errors vs reference interpreter with frames",
             "DESIGN.md section 3 C05, Appendix D.2"),
+    "C07": ("exploration",
+            "Seeded scripts (arbitrary text; or a handle/file-building prelude followed by library command lines with typed and untyped argument pools) run against the whole SDK minus the blocking commands, with the embedder-supplied out/err writers failing, short or interrupted at seed-chosen calls, inside worker processes so that an abort is attributed to its run; the oracle is survival: run_script returns under catch_unwind, the process lives, no non-loop command exceeds the nested step bound, a loop-free run finishes within the step budget. Honest note: most of this property is robustness to arguments, which is input generation; the simulator's own contribution is the writer faults, the handle histories, the deterministic step budget, abort attribution and exact replay. Three known findings (include cycle, alias cycle, join_path on a value with a line break) are listed and kept out of the main stream.",
+            "Trusted: the classification 'loops at depth 0' read off the event log (a budget hit there is inconclusive); allocation-proportional arguments are capped at 1e5; machine-reading commands have their successful output replaced by constants.",
+            "deterministic simulation: seeded command histories with stream-write fault injection, dangling handles, step-budget liveness bound and process-level abort attribution",
+            "DESIGN.md section 3 C07"),
     "C10": ("exploration",
             "Seeded programs over the real SDK in which an error is raised at arbitrary instructions: by failing commands, by the decorator failing an arbitrary leaf command (buggify) and by failing an inner command of a script-implemented command; exit_on_error is toggled mid-script and last-error probes are placed at random later points; text, file and included-file configurations. The oracle is the decorator's own record of every depth-0 Error (message, instruction, source line and file): handler arguments, output variable 'false', continuation at the next instruction, probe answers (latest error wins) and the fatal failure carrying message and line are checked against it.",
             "Trusted: the decorator's classification of depth-0 instructions and handler invocations; the (line, source) tags of parsed instructions (C14 checks those). Flow-control and condition commands are never fault points.",
